@@ -258,14 +258,22 @@ struct PoolModel : mc::Model
             g_reg = nullptr;
     }
 
-    int nconf() { return (int)confs.size(); }
+    // configurations [0, nconf()) are chosen by the first ops of the table; configurations added later
+    // (element sizes that are not multiples of the link alignment) are chosen by ops at the END of the table,
+    // so that recorded cases keep their operation numbers
+    int nprimary = -1;
+    int nconf() { return nprimary >= 0 ? nprimary : (int)confs.size(); }
+    int nextra() { return (int)confs.size() - nconf(); }
+    int base_ops() { return nconf() + 1 + MAXCAP + (has_put_null ? 1 : 0) + (has_reinit ? 2 : 0); }
     // op table: init[conf]... | get | put(cell 0..MAXCAP-1) | [put(NULL)] | [re-init same zone, re-init second zone]
-    int nops() override { return nconf() + 1 + MAXCAP + (has_put_null ? 1 : 0) + (has_reinit ? 2 : 0); }
+    int nops() override { return base_ops() + nextra(); }
     const char *reinitname() { return flav == "c_pool" ? "pool_init+pool_engage" : "init"; }
     const char *getname() { return flav == "c_pool" ? "pool_alloc" : flav == "cxx_pool" ? "get" : "create"; }
     const char *putname() { return flav == "c_pool" ? "pool_free" : flav == "cxx_pool" ? "put" : "destroy"; }
     string opname(int o) override
     {
+        if (o >= base_ops())
+            return "init[" + confs[nconf() + o - base_ops()].name + "]";
         if (o < nconf())
             return "init[" + confs[o].name + "]";
         o -= nconf();
@@ -344,10 +352,12 @@ struct PoolModel : mc::Model
     {
         g_reg = &reg;
         int o0 = o;
-        if (o < nconf())
+        if (o < nconf() || o >= base_ops())
         {
             if (conf >= 0)
                 return false;
+            if (o >= base_ops())
+                o = nconf() + o - base_ops();
             conf = o;
             mc::crash_context("C10.%s.init", flav.c_str());
             f.reset(confs[o].make());
@@ -537,19 +547,34 @@ template <class T> static void sconfs(vector<Conf> &v, const char *tn, int mx)
 MC_INIT
 {
     static const size_t ES[] = {8, 16, 24};
+    // cells that are not a multiple of alignof(slist_head): the grid is still elemsz (the zone is exactly
+    // capacity*elemsz bytes), the links in free cells are then unaligned (fine on this host)
+    static const size_t ES2[] = {12, 20};
     mc::add_bfs("c_pool", [] {
         vector<Conf> c;
         for (size_t e : ES)
             for (int n = 1; n <= maxcap(); n++)
                 c.push_back(Conf{mc::fmt("elem %zu x %d", e, n), e, [e, n] { return (Flavour *)new CFlavour(e, n); }});
-        return std::unique_ptr<mc::Model>(new PoolModel("c_pool", c, false, true));
+        int np = (int)c.size();
+        for (size_t e : ES2)
+            for (int n = 1; n <= maxcap(); n++)
+                c.push_back(Conf{mc::fmt("elem %zu x %d", e, n), e, [e, n] { return (Flavour *)new CFlavour(e, n); }});
+        PoolModel *m = new PoolModel("c_pool", c, false, true);
+        m->nprimary = np;
+        return std::unique_ptr<mc::Model>(m);
     });
     mc::add_bfs("cxx_pool", [] {
         vector<Conf> c;
         for (size_t e : ES)
             for (int n = 1; n <= maxcap(); n++)
                 c.push_back(Conf{mc::fmt("elem %zu x %d", e, n), e, [e, n] { return (Flavour *)new XFlavour(e, n); }});
-        return std::unique_ptr<mc::Model>(new PoolModel("cxx_pool", c, true, true));
+        int np = (int)c.size();
+        for (size_t e : ES2)
+            for (int n = 1; n <= maxcap(); n++)
+                c.push_back(Conf{mc::fmt("elem %zu x %d", e, n), e, [e, n] { return (Flavour *)new XFlavour(e, n); }});
+        PoolModel *m = new PoolModel("cxx_pool", c, true, true);
+        m->nprimary = np;
+        return std::unique_ptr<mc::Model>(m);
     });
     mc::add_bfs("static_object_pool", [] {
         vector<Conf> c;
